@@ -36,7 +36,9 @@ def class_program(kinds, with_arg):
     """kinds: list of 'F' | 'V' per body statement."""
     lines = ["class A(def y: Int)" if with_arg else "class A"]
     for k, kd in enumerate(kinds):
-        lines.append({"F": f"    def f{k}(self) -> Int => {k}", "V": f"    def x{k}: Int := {k}", "D": f'    """doc {k}"""'}[kd])
+        ops = ["+", "-", "*", "/", "//", "^", "mod", ">", "<"]
+        lines.append({"F": f"    def f{k}(self) -> Int => {k}", "V": f"    def x{k}: Int := {k}", "D": f'    """doc {k}"""',
+                      "O": f"    def {ops[k % len(ops)]} (self, other: A) -> Int => {k}"}[kd])
     lines.append("def a := A(2)" if with_arg else "def a := A()")
     return "\n".join(lines) + "\n"
 
@@ -63,7 +65,7 @@ def shapes_family(max_len=3):
     import itertools
     fam = []
     for n in range(1, max_len + 1):
-        for kinds in itertools.product("FVD", repeat=n):
+        for kinds in itertools.product("FVDO", repeat=n):
             for with_arg in (False, True):
                 fam.append(("".join(kinds) + ("+arg" if with_arg else ""), class_program(kinds, with_arg)))
     return fam
@@ -128,7 +130,7 @@ def run(run):
             raise Unsupported("constructor position closure: unexpected shape")
         init_of = lambda v: z3.substitute(rets[0].ret, (pv, v))
         KF, KO, KV, KD = core_kinds.index("FunDef"), core_kinds.index("FunDefOp"), core_kinds.index("VarDef"), core_kinds.index("DocStr")
-        kinds_ok = lambda d: z3.Or(d == KF, d == KV, d == KD)
+        kinds_ok = lambda d: z3.Or(d == KF, d == KV, d == KD, d == KO)
         md = re.search(r"\.max\(\)\s*\.unwrap_or\((\d+)\)", common.read_repo(CLASS_RS))
         if not md:
             raise Unsupported("default constructor position (max().unwrap_or(N)) not found in extract_class")
@@ -166,7 +168,7 @@ def run(run):
         else:
             label, m = found
             i_, j_ = m.eval(ia, model_completion=True).as_long(), m.eval(ib, model_completion=True).as_long()
-            kname = {KV: "V", KD: "D"}
+            kname = {KV: "V", KD: "D", KO: "O"}
             ka = kname.get(m.eval(da, model_completion=True).as_long(), "F")
             kb = kname.get(m.eval(db, model_completion=True).as_long(), "F")
             witness = {"query": label, "a": {"index": i_, "kind": ka}, "b": {"index": j_, "kind": kb},
@@ -229,10 +231,50 @@ def run(run):
     except Unsupported as e:
         ob2.inconclusive(str(e))
 
+    ob3 = run.ob("name-hash-canonical", "E2", "Hash for Name: the members of a union are fed to the hasher in the order of a key that is the "
+                 "member's whole variant (class name AND generics) - a coarser key lets equal names hash differently from one hash seed to "
+                 "the next, and look-ups of types that contain such a union then miss at random", ["<Name as Hash>::hash", "its sort-key closure"])
+    try:
+        NAME_MOD = "src/check/name/mod.rs"
+        TRUE_RS = "src/check/name/true_name/mod.rs"
+        cl = [f for n, f in mir.fns.items() if "::hash::{closure#" in n and f.impl_at and f.impl_at[0].endswith(NAME_MOD) and len(f.args) == 2
+              and "TrueName" in f.args[1][1] and f.ret.strip() != "()"]
+        if len(cl) != 1:
+            raise Unsupported(f"sort-key closure of Hash for Name: {len(cl)} candidates")
+        ex3 = Exec(mir, max_paths=200)
+        st3 = State()
+        tn = e2.rust_struct(TRUE_RS, "TrueName")
+        member = e2.mk_struct(TRUE_RS, "TrueName", {f: (z3.Bool("m." + f) if f.startswith("is_") else Opq(z3.Const("m." + f, Val), "StringName")) for f in tn})
+        mref = Ref(ex3.new_cell(st3, member))
+        env = Ref(ex3.new_cell(st3, Agg("closure", cl[0].args[0][1].lstrip("&").replace("mut ", "").strip(), [])))
+        arg = Ref(ex3.new_cell(st3, mref)) if cl[0].args[1][1].strip().startswith("&&") else mref
+        ends3 = e2.run_kernel(run, ex3, cl[0], [env, arg], st3)
+        rets = [p for p in ends3 if p.kind == "return"]
+        if len(rets) != 1:
+            raise Unsupported(f"sort-key closure: {len(rets)} return paths")
+        key = rets[0].ret
+        keyv = ex3.read_ref(rets[0].state, key) if isinstance(key, Ref) else key
+        want = member.fields[tn.index("variant")]
+        try:
+            claim = ex3.to_val(rets[0].state, keyv) == ex3.to_val(rets[0].state, want)
+        except Exception:
+            claim = z3.BoolVal(False)
+
+        def replay3(model):
+            src = "def keep(entry: (Str, {List[Int], List[Str]})) -> (Str, {List[Int], List[Str]}) => entry\n"
+            outs = [fresh((src, False))[0] for _ in range(2 * PROCS)]
+            if len(set(outs)) > 1:
+                return {"reproduced": True, "role": "name-hash:same-class-different-generics",
+                        "detail": f"{src!r}: verdicts over {2 * PROCS} fresh processes: { {o: outs.count(o) for o in set(outs)} }"}
+            return {"reproduced": False, "detail": f"{2 * PROCS} fresh processes give the same verdict ({outs[0]})"}
+        e2.prove(run, ob3, ex3, [], claim, {}, replay3)
+    except Unsupported as e:
+        ob3.inconclusive(str(e))
+
     if run.clean():
         # translator validation: every class shape up to 3 statements, with and without class arguments, in fresh processes
         bad = []
-        fam = shapes_family(3 if run.tier == "quick" else 4)
+        fam = shapes_family(2 if run.tier == "quick" else 3)
         for role, src in fam:
             nd, outs = nondeterministic(src, 4 if run.tier == "quick" else PROCS)
             run.validated += len(outs)
